@@ -604,7 +604,53 @@ func genNGRule(r *rng) [][]lterm {
 	return [][]lterm{seq}
 }
 
+// genSmallRangeSpec: nothing but 3-6 rules that are single ranges (sometimes two) over the eight letters a..h, so
+// that equal starts, equal ends, containment on both sides, exact remainders and one-character ranges on a
+// boundary all occur often — the corner cases of the code that splits overlapping ranges.
+func genSmallRangeSpec(r *rng) *lspec {
+	s := &lspec{}
+	var ranges [][2]int
+	switch r.intn(4) {
+	case 0:
+		// x strictly contains y; w is exactly what is left of x to the right of y; z lies inside w
+		ranges = [][2]int{{'a', 'h'}, {'c', 'd'}, {'e', 'h'}, {'g', 'g'}}
+		if r.chance(1, 2) {
+			ranges = [][2]int{{'a', 'g'}, {'b', 'b'}, {'c', 'g'}, {'d', 'f'}}
+		}
+	case 1:
+		// the same to the left
+		ranges = [][2]int{{'a', 'h'}, {'e', 'f'}, {'a', 'd'}, {'b', 'b'}}
+	case 2:
+		// two ranges with a common start; a third one begins exactly on the last character of the shorter
+		ranges = [][2]int{{'a', 'c'}, {'a', 'h'}, {'c', 'c'}}
+		if r.chance(1, 2) {
+			ranges = [][2]int{{'b', 'e'}, {'b', 'g'}, {'e', 'f'}}
+		}
+	}
+	for k := r.intn(4); k > 0 || len(ranges) < 3; k-- {
+		b := 'a' + r.intn(8)
+		ranges = append(ranges, [2]int{b, b + r.intn('h'-b+1)})
+	}
+	for i, k := range r.perm(len(ranges)) {
+		t := lterm{re: &lre{kind: 1, class: &classExpr{items: [][2]int{ranges[k]}}}}
+		if r.chance(1, 3) {
+			t.card = "+"
+		}
+		rule := &lrule{name: fmt.Sprintf("T%d", i+1), alts: [][]lterm{{t}}}
+		if r.chance(1, 5) {
+			// a second term: its range meets the others in a different NFA state
+			b := 'a' + r.intn(8)
+			rule.alts[0] = append(rule.alts[0], lterm{re: &lre{kind: 1, class: &classExpr{items: [][2]int{{b, b + r.intn('h'-b+1)}}}}})
+		}
+		s.items = append(s.items, litem{rule: rule})
+	}
+	return s
+}
+
 func genLexSpec(r *rng, o lexGenOpts) *lspec {
+	if r.chance(1, 6) {
+		return genSmallRangeSpec(r)
+	}
 	s := &lspec{}
 	var macroNames []string
 	if r.chance(1, 3) {
@@ -677,6 +723,38 @@ func genLexSpec(r *rng, o lexGenOpts) *lspec {
 		return items
 	}
 	s.items = append(s.items, genRules(false)...)
+	if r.chance(1, 4) {
+		// a family of ranges with coinciding boundaries, where range-splitting code has its corner cases: x strictly
+		// contains y; w is exactly the remainder of x to the right (or left) of y; z is one character inside w; u
+		// starts where x starts and is shorter; v begins exactly on u's last character
+		lo := 'a' + r.intn(3)
+		hi := 'z' - r.intn(3)
+		y1 := lo + 1 + r.intn(4)
+		y2 := y1 + r.intn(3)
+		cls := func(b, e int) [][]lterm {
+			t := lterm{re: &lre{kind: 1, class: &classExpr{items: [][2]int{{b, e}}}}}
+			if r.chance(1, 3) {
+				t.card = "+"
+			}
+			return [][]lterm{{t}}
+		}
+		var fam [][][]lterm
+		fam = append(fam, cls(lo, hi), cls(y1, y2))
+		if r.chance(1, 2) {
+			fam = append(fam, cls(y2+1, hi))
+			z := y2 + 2 + r.intn(hi-y2-2)
+			fam = append(fam, cls(z, z))
+		} else {
+			fam = append(fam, cls(lo, y1-1))
+		}
+		if r.chance(1, 2) {
+			u := lo + 2 + r.intn(5)
+			fam = append(fam, cls(lo, u), cls(u, u+r.intn(2)))
+		}
+		for _, k := range r.perm(len(fam)) {
+			s.items = append(s.items, litem{rule: &lrule{name: newTok(), alts: fam[k]}})
+		}
+	}
 	if o.epsRules && o.accum && r.chance(1, 2) {
 		// an accumulating fragment that can match the empty string
 		body := lterm{re: &lre{kind: 1, class: &classExpr{items: [][2]int{{'a', 'c'}, {' ', ' '}}}}, card: "*"}
@@ -688,6 +766,26 @@ func genLexSpec(r *rng, o lexGenOpts) *lspec {
 		m.items = append(m.items, litem{rule: &lrule{frag: true, alts: [][]lterm{{{re: &lre{kind: 0, lit: []int{'}'}}}}}, acts: []lact{{kind: "pop"}, {kind: "discard"}}}})
 		pos := r.intn(len(s.items) + 1)
 		s.items = append(s.items[:pos], append([]litem{{mode: m}}, s.items[pos:]...)...)
+	}
+	if o.modes && r.chance(1, 3) {
+		// a mode whose ONLY rule begins with a star loop (BODY = ~[/]* '/' @pop_mode): after minimisation its
+		// start state loops on itself; entered from the default mode by a dedicated rule
+		term := pick(r, []int{'/', '"', 'z'})
+		loop := lterm{re: &lre{kind: 1, class: &classExpr{neg: true, items: [][2]int{{term, term}}}}, card: "*"}
+		if r.chance(1, 3) {
+			loop = lterm{re: &lre{kind: 1, class: &classExpr{items: [][2]int{{'a', 'c'}, {' ', ' '}}}}, card: "*"}
+		}
+		body := &lrule{alts: [][]lterm{{loop, {re: &lre{kind: 0, lit: []int{term}}}}}, acts: []lact{{kind: "pop"}}}
+		if r.chance(1, 2) {
+			body.name = newTok()
+		} else {
+			body.frag = true
+			body.acts = append(body.acts, lact{kind: "discard"})
+		}
+		m := &lmode{name: "Loop8", items: []litem{{rule: body}}}
+		enter := &lrule{name: newTok(), alts: [][]lterm{{{re: &lre{kind: 0, lit: []int{'x', term}}}}}, acts: []lact{{kind: "push", arg: "Loop8"}}}
+		s.items = append([]litem{{rule: enter}}, s.items...)
+		s.items = append(s.items, litem{mode: m})
 	}
 	if o.modes && r.chance(1, 3) {
 		// a mode without any token or fragment rule (empty, or holding only a macro), placed anywhere in the
@@ -800,6 +898,68 @@ func (s *lspec) genInputErrorInMode(r *rng) []byte {
 		if r.chance(1, 2) {
 			cps = append(cps, ' ')
 			sample(plain)
+		}
+	}
+	var out []byte
+	for _, c := range cps {
+		out = utf8.AppendRune(out, rune(c))
+	}
+	return out
+}
+
+// genInputModeWalk: a text that follows the modes — a rule of the CURRENT mode is sampled, its push/pop actions
+// are applied to the harness's own mode stack, and so on; rules that switch modes are preferred.  (Longest-match
+// may of course lex the text differently; the point is that texts of nested modes occur, and, cut at every
+// position in C11, texts that end in the middle of a construct of an inner mode.)
+func (s *lspec) genInputModeWalk(r *rng) []byte {
+	macros := s.macros()
+	byName := map[string]*lmode{}
+	for _, m := range s.modeList() {
+		byName[m.name] = m
+	}
+	cur := "$default"
+	var stack []string
+	var cps []int
+	for n := 2 + r.intn(6); n > 0; n-- {
+		m := byName[cur]
+		var rules, switching []*lrule
+		for _, it := range m.items {
+			if it.rule == nil {
+				continue
+			}
+			rules = append(rules, it.rule)
+			for _, a := range it.rule.acts {
+				if a.kind == "push" || a.kind == "pop" {
+					switching = append(switching, it.rule)
+					break
+				}
+			}
+		}
+		if len(rules) == 0 {
+			break
+		}
+		rule := pick(r, rules)
+		if len(switching) > 0 && r.chance(1, 2) {
+			rule = pick(r, switching)
+		}
+		s.sampleAlts(r, rule.alts, macros, 0, &cps)
+		for _, a := range rule.acts {
+			switch a.kind {
+			case "push":
+				stack = append(stack, cur)
+				cur = a.arg
+				if cur == "" {
+					cur = "$default"
+				}
+			case "pop":
+				if len(stack) > 0 {
+					cur = stack[len(stack)-1]
+					stack = stack[:len(stack)-1]
+				}
+			}
+		}
+		if byName[cur] == nil {
+			cur = "$default"
 		}
 	}
 	var out []byte
